@@ -185,6 +185,22 @@ class Source:
                 if want_depth == 0:
                     pass
                 found.append(idx)
+        if len(found) > 1:
+            # items configured out on this target (`#[cfg(target_arch = "wasm32")]` directly above the fn) are not the code that runs
+            def cfg_out(idx):
+                ls = self.text.rfind("\n", 0, idx) + 1
+                k = ls
+                while k > 0:
+                    pl = self.text.rfind("\n", 0, k - 1) + 1
+                    line = self.text[pl:k - 1].strip()
+                    if line.startswith("#[") or line.startswith("///") or line.startswith("//"):
+                        if re.match(r'#\[cfg\(target_arch\s*=\s*"wasm32"\)\]', line):
+                            return True
+                        k = pl
+                        continue
+                    break
+                return False
+            found = [i for i in found if not cfg_out(i)]
         if not found:
             raise AnchorLost("%s: fn %s not found in `%s`" % (self.path, name, impl_spec))
         if len(found) > 1:
